@@ -664,6 +664,11 @@ func (a *Application) transformStreamAndWaitForProxy(
 	// transform stream (blocks until done)
 	transformErr := trans.TransformStreamingResponse(ctx, pipeReader, w, r)
 
+	// The transformer can stop before the stream ends (client gone, context cancelled)
+	// without draining the pipe. Close the read side so that a proxy goroutine blocked
+	// in a pipe write is released; otherwise it and this handler wait on each other forever.
+	pipeReader.Close()
+
 	// Wait for proxy to complete
 	proxyErr := <-proxyErrChan
 
